@@ -18,8 +18,8 @@ func init() {
 
 // C01 — built segment answers every term query as the batch dictates.
 func c01(c *Ctx) {
-	n := c.N(480, 6000)
-	tallEvery := c.N(160, 100)
+	n := c.N(3200, 60000)
+	tallEvery := c.N(100, 150)
 	for i := 0; i < n; i++ {
 		if !c.Mine(i) {
 			continue
@@ -78,8 +78,8 @@ func modeClass(m uint32) string {
 
 // C02 — stored fields, ids and id lookup round-trip.
 func c02(c *Ctx) {
-	n := c.N(400, 5000)
-	tallEvery := c.N(200, 150)
+	n := c.N(2400, 40000)
+	tallEvery := c.N(200, 250)
 	for i := 0; i < n; i++ {
 		if !c.Mine(i) {
 			continue
@@ -154,7 +154,7 @@ var dvChunks = []uint32{1, 2, 3, 5, 8, 1024, 4, 7, 16}
 
 // C03 — doc values return exactly each document's terms.
 func c03(c *Ctx) {
-	n := c.N(240, 3000)
+	n := c.N(1500, 20000)
 	for i := 0; i < n; i++ {
 		if !c.Mine(i) {
 			continue
@@ -252,8 +252,8 @@ func c03(c *Ctx) {
 
 // C04 — persisted and re-opened ≡ in-memory.
 func c04(c *Ctx) {
-	n := c.N(300, 4000)
-	tallEvery := c.N(150, 120)
+	n := c.N(1200, 16000)
+	tallEvery := c.N(150, 200)
 	for i := 0; i < n; i++ {
 		if !c.Mine(i) {
 			continue
